@@ -1,6 +1,6 @@
 """C05 - run termination and done flags are exact"""
 from .. import sched, sched_mon
-from ..explore import Outcome, standard
+from ..explore import Outcome, standard, sharded
 
 PID = "C05"
 LEVEL = "model_checking"
@@ -30,7 +30,8 @@ def jobs(tier):
         sh = sched.shapes(2, maxtop=3, maxleaves=3, always=True)
     else:
         sh = sched.shapes(3, maxtop=3, maxleaves=4, always=True)
-    return [("C05", s) for s in sh]
+    sweep = [("C05", s, "sweep") for s in [("L",), ("L", "L"), (("D", True, ("L",)),), (("D", False, ("L", "L")),)]]
+    return [("C05", s) for s in sh] + sharded(sweep, 8)
 
 
 def harness(job, ch):
